@@ -59,8 +59,11 @@ def build(sc):
         elif k == "A":
             for i in range(sc["rows"]):
                 lines.append(" " + " ".join("%d" % (i * 1000 + j + 1) for j in range(sc["cols"])))
-        for n in sec.get("blank_after", []):
-            lines.append(n)
+        if sec.get("stray"):
+            lines.append(sec["stray"])            # a line lasio cannot parse, as the very last line of the section
+        else:
+            for n in sec.get("blank_after", []):
+                lines.append(n)
     return docmodel.join(lines, "\n", sc.get("final_newline", True)), exp
 
 
@@ -108,6 +111,10 @@ class C05(Prop):
         if steer and g.random() < 0.7:
             p_items.insert(g.randint(0, len(p_items)), list(g.choice(STEER)))
         o_text = [("# " if g.random() < 0.25 else "") + "tag O#%d free text with 1 2 3" % i for i in range(g.randint(0, 4))]
+        if o_text and g.random() < 0.15:
+            # characters at which str.splitlines() breaks but a file's line iteration does not (page breaks, separators)
+            k = g.randrange(len(o_text))
+            o_text[k] = o_text[k].replace(" free ", g.choice([" page\x0cbreak ", " vt\x0btab ", " fs\x1cgs\x1drs\x1eus ", " a\x0c\x0cb "]))
         pool = [{"kind": "W", "title": title("W"), "items": w_items}, {"kind": "C", "title": title("C"), "items": c_items},
                 {"kind": "P", "title": title("P"), "items": p_items}, {"kind": "O", "title": title("O"), "text": o_text}]
         ctitles = g.sample(CUSTOM, g.choice([0, 0, 1, 1, 2, 3]))
@@ -134,7 +141,14 @@ class C05(Prop):
             for s in pool:
                 if s["kind"] != "O" and g.random() < 0.3:      # inside ~Other every line is content
                     s["blank_after"] = [g.choice(["", "# comment", "   "])]
-        return {"vers": vers, "sections": [v] + pool, "cols": cols, "rows": rows, "final_newline": g.random() < 0.7,
+        stray = False
+        if g.random() < 0.08:
+            # read with ignore_header_errors=True: a stray unparsable line closes one or two header sections
+            for s0 in g.sample([v] + pool, g.randint(1, 2)):
+                if s0["kind"] in ("V", "W", "P", "X"):
+                    s0["stray"] = g.choice(["stray words without separators", "end of block", "xx"])
+                    stray = True
+        return {"stray": stray, "vers": vers, "sections": [v] + pool, "cols": cols, "rows": rows, "final_newline": g.random() < 0.7,
                 "nkw": neutral_read_kw(g, exclude=("ignore_data",)), "engine": g.choice(["numpy", "normal"]), "ignore_data": g.random() < 0.15, "case": g.choice(["preserve", "preserve", "upper", "lower"]),
                 "channel": draw_read_channel(g, ascii_only=True),
                 # the reading LASFile object has read another file (with V, W, C, P, O, A sections) before
@@ -150,6 +164,8 @@ class C05(Prop):
                 kw = fix_kw(dict(sc.get("nkw") or {}, engine=sc["engine"], mnemonic_case=sc.get("case", "preserve")))
                 if sc.get("ignore_data"):
                     kw["ignore_data"] = True
+                if sc.get("stray"):
+                    kw["ignore_header_errors"] = True
                 into = None
                 if sc.get("prelude"):
                     import io
